@@ -73,6 +73,17 @@ type Script struct {
 	// HookHeads: slots S for which HandleHeadEvent(S) is called after the ticker delivered S and before
 	// scheduleSlot(S) dispatches its duties (late tick / block right at the slot start).
 	HookHeads []int `json:"hook_heads,omitempty"`
+	// VC: the real eth2wrap.ValidatorCache sits between the beacon node and the scheduler, wired as app/app.go
+	// does (NewValidatorCache(eth2Cl, clusterPubkeys); CompleteValidators = valCache.GetByHead; the
+	// "Refreshing validator cache" slot subscriber). The beacon node's validators endpoint then also knows
+	// the Extra (non-cluster) validators and honours the id filters.
+	VC bool `json:"vc,omitempty"`
+	// VCAfter: the refresh subscriber of a slot runs after scheduleSlot handled the slot (default: before).
+	VCAfter bool `json:"vc_after,omitempty"`
+	// ValBySlotFail / ValAllFail: validators-endpoint call numbers (0-based) at which a non-head state
+	// query fails / every query fails.
+	ValBySlotFail []int `json:"val_by_slot_fail,omitempty"`
+	ValAllFail    []int `json:"val_all_fail,omitempty"`
 }
 
 // fmCoq renders the flag mode as the model's fmode.
@@ -101,7 +112,7 @@ type History struct {
 
 // Stats summarises what a history exercised.
 type Stats struct {
-	Ticks, Skipped, Triggers, Resolutions, Failed, Aborted, EmptyActive, Reorgs, LastSlotResolves, Unknown, Inactive, Heads, HookedHeads, Fetches, Fires int
+	Ticks, Skipped, Triggers, Resolutions, Failed, Aborted, EmptyActive, Reorgs, LastSlotResolves, Unknown, Inactive, Heads, HookedHeads, Fetches, Fires, ValQueries, ValBySlotFailed, ValAllFailed, ValFallbacks int
 }
 
 
@@ -214,6 +225,11 @@ type bn struct {
 	clock   clockwork.Clock
 	genesis time.Time
 	flagsOn bool
+	valCache   *eth2wrap.ValidatorCache
+	valCalls   int
+	bySlotFail map[int]bool
+	allFail    map[int]bool
+	firstRefresh, refreshedBySlot bool
 	fires   []string // LFire labels not yet emitted
 	fetches []string // definition sets handed to the fetch-only function, not yet consumed
 
@@ -240,6 +256,21 @@ func newBN(sc Script, clock clockwork.Clock, genesis time.Time) *bn {
 	}
 	for _, x := range sc.Flip {
 		b.flipSet[x] = true
+	}
+	b.bySlotFail, b.allFail = map[int]bool{}, map[int]bool{}
+	for _, x := range sc.ValBySlotFail {
+		b.bySlotFail[x] = true
+	}
+	for _, x := range sc.ValAllFail {
+		b.allFail[x] = true
+	}
+	b.firstRefresh, b.refreshedBySlot = true, true
+	if sc.VC {
+		var pks []eth2p0.BLSPubKey
+		for _, v := range sc.Vals {
+			pks = append(pks, pkBytes(v.PK))
+		}
+		b.valCache = eth2wrap.NewValidatorCache(b, pks)
 	}
 
 	return b
@@ -284,7 +315,142 @@ func (b *bn) headEpoch() int {
 	return int(ns / b.sc.SlotNs / int64(b.sc.SPE))
 }
 
-func (b *bn) CompleteValidators(context.Context) (eth2wrap.CompleteValidators, error) {
+// validatorAt is the beacon node's view of one validator in the state of the given epoch.
+func validatorAt(idx, pk uint64, act, exit, epoch int) *eth2v1.Validator {
+	status := eth2v1.ValidatorStateActiveOngoing
+	switch {
+	case epoch < act:
+		status = eth2v1.ValidatorStatePendingQueued
+	case epoch >= exit:
+		status = eth2v1.ValidatorStateExitedUnslashed
+	}
+
+	return &eth2v1.Validator{
+		Index:  eth2p0.ValidatorIndex(idx),
+		Status: status,
+		Validator: &eth2p0.Validator{
+			PublicKey:       pkBytes(pk),
+			ActivationEpoch: eth2p0.Epoch(act),
+			ExitEpoch:       eth2p0.Epoch(exit),
+		},
+	}
+}
+
+// Validators is the beacon node's validators endpoint (used only through the ValidatorCache): it knows
+// the cluster validators and the Extra ones, honours the pubkey / index filters (none: everything),
+// and fails as scripted.
+func (b *bn) Validators(_ context.Context, opts *eth2api.ValidatorsOpts) (*eth2api.Response[map[eth2p0.ValidatorIndex]*eth2v1.Validator], error) {
+	b.mu.Lock()
+	defer b.mu.Unlock()
+
+	n := b.valCalls
+	b.valCalls++
+	b.st.ValQueries++
+	if b.allFail[n] {
+		b.st.ValAllFailed++
+		return nil, errors.New("scripted validators endpoint error")
+	}
+	epoch := b.headEpoch()
+	if opts.State != "head" {
+		if b.bySlotFail[n] {
+			b.st.ValBySlotFailed++
+			return nil, errors.New("scripted: state not found")
+		}
+		var slot int
+		if _, err := fmt.Sscan(opts.State, &slot); err != nil {
+			return nil, errors.New("unsupported state id " + opts.State)
+		}
+		epoch = slot / b.sc.SPE
+	} else {
+		b.st.ValFallbacks++ // head queries: cache miss in GetByHead or the fall-back of GetBySlot
+	}
+
+	want := func(idx uint64, pk eth2p0.BLSPubKey) bool {
+		if len(opts.PubKeys) == 0 && len(opts.Indices) == 0 {
+			return true
+		}
+		for _, p := range opts.PubKeys {
+			if p == pk {
+				return true
+			}
+		}
+		for _, i := range opts.Indices {
+			if uint64(i) == idx {
+				return true
+			}
+		}
+
+		return false
+	}
+	resp := make(map[eth2p0.ValidatorIndex]*eth2v1.Validator)
+	for _, v := range b.sc.Vals {
+		if epoch >= v.KnownFrom && want(v.Idx, pkBytes(v.PK)) {
+			resp[eth2p0.ValidatorIndex(v.Idx)] = validatorAt(v.Idx, v.PK, v.Act, v.Exit, epoch)
+		}
+	}
+	for _, idx := range b.sc.Extra {
+		if want(idx, pkBytes(9000+idx)) {
+			resp[eth2p0.ValidatorIndex(idx)] = validatorAt(idx, 9000+idx, 0, 1<<30, epoch)
+		}
+	}
+
+	return &eth2api.Response[map[eth2p0.ValidatorIndex]*eth2v1.Validator]{Data: resp}, nil
+}
+
+// refreshValCache is the "Refreshing validator cache" slot subscriber of app/app.go.
+func (b *bn) refreshValCache(ctx context.Context, slot core.Slot) {
+	if !slot.FirstInEpoch() && !b.firstRefresh && b.refreshedBySlot {
+		return
+	}
+	slotToFetch := slot.Slot
+	if !b.refreshedBySlot {
+		slotToFetch = slot.Epoch() * slot.SlotsPerEpoch
+	}
+	b.valCache.Trim()
+	_, _, refresh, err := b.valCache.GetBySlot(ctx, slotToFetch)
+	if err != nil {
+		return
+	}
+	b.refreshedBySlot = refresh
+	b.firstRefresh = false
+}
+
+// completeValidatorsVC is CompleteValidators through the real ValidatorCache (eth2Cl.SetValidatorCache(valCache.GetByHead)).
+func (b *bn) completeValidatorsVC(ctx context.Context) (eth2wrap.CompleteValidators, error) {
+	b.mu.Lock()
+	b.begin()
+	r := &resn{}
+	if b.cur == nil {
+		b.stray = append(b.stray, "CompleteValidators outside a tick")
+		b.mu.Unlock()
+		return nil, errors.New("stray")
+	}
+	b.cur.resns = append(b.cur.resns, r)
+	b.st.Resolutions++
+	b.mu.Unlock()
+
+	_, complete, err := b.valCache.GetByHead(ctx)
+
+	b.mu.Lock()
+	defer b.mu.Unlock()
+	if err != nil {
+		b.st.Failed++
+		return nil, err
+	}
+	r.valsOK = true
+	for idx, v := range complete {
+		r.vals = append(r.vals, vrec{idx: uint64(idx), pk: binary.BigEndian.Uint64(v.Validator.PublicKey[40:]), active: v.Status.IsActive(), actep: uint64(v.Validator.ActivationEpoch)})
+	}
+	sort.Slice(r.vals, func(i, j int) bool { return r.vals[i].idx < r.vals[j].idx })
+
+	return complete, nil
+}
+
+func (b *bn) CompleteValidators(ctx context.Context) (eth2wrap.CompleteValidators, error) {
+	if b.valCache != nil {
+		return b.completeValidatorsVC(ctx)
+	}
+
 	b.mu.Lock()
 	defer b.mu.Unlock()
 
@@ -662,7 +828,14 @@ func runScript(t *testing.T, sc Script) ([]string, Stats) {
 		}
 		tickCh := make(chan core.Slot)
 		ackCh := make(chan struct{})
-		schedSlot := func(_ context.Context, slot core.Slot) {
+		var lastSlot core.Slot
+		schedSlot := func(ctx context.Context, slot core.Slot) {
+			if b.valCache != nil {
+				if !sc.VCAfter {
+					b.refreshValCache(ctx, slot) // the slot subscriber completes before the slot is scheduled
+				}
+				lastSlot = slot
+			}
 			tickCh <- slot
 			<-ackCh
 		}
@@ -698,6 +871,11 @@ func runScript(t *testing.T, sc Script) ([]string, Stats) {
 					b.st.LastSlotResolves += len(b.cur.resns) - 1
 				}
 				b.cur = nil
+				if b.valCache != nil && sc.VCAfter {
+					b.mu.Unlock()
+					b.refreshValCache(context.Background(), lastSlot) // ... or after scheduleSlot handled it
+					b.mu.Lock()
+				}
 			}
 		}
 		flushFires := func() {
@@ -856,10 +1034,28 @@ func genScript(r *rand.Rand, kind string) Script {
 	sc.DupSync = r.Intn(4) == 0
 	sc.OffEpoch = kind == "offepoch"
 
+	if kind == "valcache" {
+		if len(sc.Vals) == 0 { // a cluster has at least one validator (an empty pubkey filter means "all validators")
+			sc.Vals = append(sc.Vals, VSpec{Idx: 10, PK: 100, Exit: 1 << 30})
+		}
+		sc.VC = true
+		sc.VCAfter = r.Intn(4) == 0
+		sc.OffEpoch = false
+		if len(sc.Extra) == 0 {
+			sc.Extra = append(sc.Extra, uint64(70+r.Intn(3)))
+		}
+		if r.Intn(2) == 0 {
+			sc.Extra = append(sc.Extra, uint64(75+r.Intn(3)))
+		}
+		if r.Intn(4) == 0 {
+			sc.FM = []string{"on", "delay", "both"}[r.Intn(3)]
+			sc.FF = true
+		}
+	}
 	if kind == "flags" {
 		sc.FM = []string{"on", "delay", "both"}[r.Intn(3)]
 		sc.FF = r.Intn(6) != 0
-	} else if r.Intn(10) == 0 {
+	} else if kind != "valcache" && r.Intn(10) == 0 {
 		sc.FF = true // a fetch-only function without flags: head events must do nothing
 	}
 	nops := 8 + r.Intn(40)
@@ -906,6 +1102,17 @@ func genScript(r *rand.Rand, kind string) Script {
 		for sl := startSlot; sl <= cur/sc.SlotNs; sl++ {
 			if r.Intn(3) == 0 {
 				sc.HookHeads = append(sc.HookHeads, int(sl))
+			}
+		}
+	}
+	if sc.VC {
+		dens := 1 + r.Intn(3)
+		for i := 0; i < 3*nops; i++ {
+			switch x := r.Intn(10); {
+			case x < dens:
+				sc.ValBySlotFail = append(sc.ValBySlotFail, i)
+			case x == 9 && r.Intn(2) == 0:
+				sc.ValAllFail = append(sc.ValAllFail, i)
 			}
 		}
 	}
@@ -971,6 +1178,11 @@ func corpus() []Script {
 		// both flags, no fetch-only function registered; reorg while an attester duty waits
 		{SPE: 4, SlotNs: s, StartNs: 0, Vals: v2, Seed: 17, FM: "both", FF: false, HookHeads: []int{1, 2},
 			Ops: []Op{{Op: "adv", Dt: s}, {Op: "head", Slot: 1}, {Op: "reorg", Ep: 0}, {Op: "adv", Dt: s}, {Op: "adv", Dt: s}, {Op: "adv", Dt: 3 * s}, {Op: "adv", Dt: s}}},
+		// real ValidatorCache in front of the scheduler; the beacon node also knows validators 70 and 71 (not in the
+		// cluster, with duties); the very first by-slot validators query fails (head works), later ones too
+		{SPE: 4, SlotNs: s, StartNs: 0, Vals: v2, Extra: []uint64{70, 71}, Seed: 18, VC: true, ValBySlotFail: []int{0, 3, 4}, Ops: slots(10, s), Fail: []int{9, 11, 13, 15}},
+		// both validators queries fail at start, recovery later; refresh subscriber after scheduleSlot
+		{SPE: 2, SlotNs: s, StartNs: s, Vals: v2, Extra: []uint64{70}, Seed: 19, VC: true, VCAfter: true, ValAllFail: []int{0, 1, 2}, ValBySlotFail: []int{5, 6}, Ops: slots(9, s)},
 		// validator pending -> active -> exited, another unknown at first
 		{SPE: 2, SlotNs: s, StartNs: 0, Vals: []VSpec{{Idx: 10, PK: 100, Act: 1, Exit: 3}, {Idx: 11, PK: 101, Act: 2, Exit: 1 << 30, KnownFrom: 2}}, Seed: 14, Ops: slots(10, s)},
 	}
@@ -1010,8 +1222,10 @@ func TestGen(t *testing.T) {
 		switch x := r.Intn(16); {
 		case x < 2:
 			kind = "offepoch"
-		case x < 8:
+		case x < 7:
 			kind = "flags"
+		case x < 10:
+			kind = "valcache"
 		}
 		hs = append(hs, History{ID: len(hs), Kind: kind, Script: genScript(r, kind)})
 	}
